@@ -560,6 +560,81 @@ def run_constructions(w) -> None:
             loaded.unload()
 
 
+OUT_OF_ORDER_SOURCE = '''
+import icontract
+
+
+class Gate:
+    """An awaitable which hands control back to whoever drives the coroutine."""
+
+    def __await__(self):
+        yield "gate"
+
+
+@icontract.ensure(lambda result: HUB.cond("post:slow", {}))
+async def slow(tag):
+    HUB.body("slow:start", {})
+    await Gate()
+    HUB.body("slow:end", {})
+    return tag
+
+
+PENDING = []
+
+
+def finishes_the_pending_calls_and_reenters(x):
+    """A condition of ``checked``: other calls - started earlier, suspended in their bodies - finish while it is evaluated; then it uses
+    the function it describes."""
+    HUB.cond("pre:checked", {"x": x})
+    while PENDING:
+        coro = PENDING.pop()
+        try:
+            coro.send(None)
+        except StopIteration:
+            pass
+    return x <= 0 or checked(x - 1) == x - 1
+
+
+@icontract.require(finishes_the_pending_calls_and_reenters)
+def checked(x):
+    HUB.body("checked", {"x": x})
+    return x
+'''
+
+
+def run_out_of_order(w) -> None:
+    """Calls which started earlier and are suspended in their bodies finish (out of order) while a condition of another function is
+    being evaluated; the condition then re-enters its own function: still a re-entry, skipped - the precondition is evaluated once."""
+    for n_pending in (1, 2, 4):
+        loaded = prog.load_source(OUT_OF_ORDER_SOURCE, w.scratch())
+        mod, hub = loaded.module, loaded.hub
+        try:
+            hub.reset()
+            for i in range(n_pending):
+                coro = mod.slow(i)
+                coro.send(None)  # suspended in its body, outside of any check
+                mod.PENDING.append(coro)
+            try:
+                res = mod.checked(3)
+                outcome = "returned {!r}".format(res)
+            except RecursionError:
+                outcome = "RecursionError"
+            except BaseException as err:  # pylint: disable=broad-except
+                outcome = "raised {}: {}".format(type(err).__name__, str(err)[:100])
+            pres = sum(1 for e in hub.events if e.kind == "cond" and e.id == "pre:checked")
+            posts = sum(1 for e in hub.events if e.kind == "cond" and e.id == "post:slow")
+            w.count("invocations_judged", 2)
+            w.count("must_skip_invariants_invocations")
+            w.count("out_of_order_finishes", n_pending)
+            w.case(("out-of-order", n_pending))
+            if outcome != "returned 3" or pres != 1 or posts != n_pending:
+                w.violation("C10/re-entrant-call-checked", "{} suspended call(s) finished while the precondition of `checked` was evaluated: {}; the "
+                            "precondition was evaluated {} time(s) (expected once) and {} postcondition(s) of the finished calls ran (expected {})".format(
+                                n_pending, outcome, pres, posts, n_pending), {"out_of_order": n_pending})
+        finally:
+            loaded.unload()
+
+
 def run_directed(w, graph_index: int, is_async: bool) -> None:
     """Directed graphs: a contract probe re-enters its own function EVERY time it runs, after another contracted function was checked in
     between (called by the probe itself and, every time, by the body); termination rests on the suspension rule alone."""
@@ -798,6 +873,8 @@ def run(w) -> None:
         run_same_def(w)
     if w.shard == 2 % w.nshards:
         run_constructions(w)
+    if w.shard == 3 % w.nshards:
+        run_out_of_order(w)
     n = 20000 if w.tier == "thorough" else 1500
     for i in range(n):
         if i % w.nshards != w.shard:
@@ -812,6 +889,9 @@ def run(w) -> None:
 def replay(case, w) -> None:
     if "construction" in case:
         run_constructions(w)
+        return
+    if "out_of_order" in case:
+        run_out_of_order(w)
         return
     if "other_flow" in case:
         run_other_flows(w)
